@@ -64,4 +64,9 @@ EndsAgree == (phase = "done") = pst.over
 \* non-vacuity witnesses (expected to be violated)
 CovLogin  == ~(inv # <<>> /\ cmd.v = "PASS" /\ ex = 0)
 CovApop   == ~(inv # <<>> /\ cmd.v = "APOP" /\ ex = -1)
+Witnessed ==
+  /\ (~CovLogin => PrintT("COV Login"))
+  /\ (~CovApop  => PrintT("COV ApopCrash"))
+  /\ (cmd.v = "PASS" /\ rep.c = "err" /\ inv = <<>> /\ pst.user = <<>> /\ cmd.a = <<117>> => PrintT("COV PassBeforeUser"))
+  /\ (cmd.v = "RETR" /\ rep.c = "err" /\ pst.user # <<>> => PrintT("COV RefusedBeforeLogin"))
 =============================================================================
